@@ -106,6 +106,45 @@ def exact_coq_text(ties):
     return "\n".join(lines) + "\n"
 
 
+def _nest(x):
+    if isinstance(x, list):
+        return "[" + "; ".join(_nest(y) for y in x) + "]"
+    return "(%d)" % int(x)
+
+
+def _cfgs(dims):
+    return list(itertools.product(*[range(d) for d in dims]))
+
+
+def _cl(c):
+    return "[" + "; ".join("%d%%nat" % x for x in c) + "]"
+
+
+def ints_coq_text(ints):
+    """from_mps, max_entangled_gs and Tr(O rho rho^+) evaluated by the Coq models over Z on the implementation's integer tensors"""
+    lines = ["From RV Require Import Base.CRing Base.BigSum Model.Chain Model.Prop.", "From Coq Require Import List ZArith.", "Import ListNotations.", "Open Scope Z_scope.",
+             "Definition trOR (ops kets : list (nat * T4 ZRing)) (pd qd : list nat) : Z :=",
+             "  sumcfg (R := ZRing) pd (fun s' => sumcfg (R := ZRing) pd (fun s => (opamp ops s' s) *",
+             "    sumcfg (R := ZRing) qd (fun t => opamp kets s t * opamp kets s' t)))."]
+    for r in ints:
+        f = r["from_mps"]
+        ch = "[" + "; ".join("(%d%%nat, of3 (R := ZRing) %s)" % (c["d"], _nest(c["t"])) for c in f["chain"]) + "]"
+        cf = _cfgs(f["pdims"])
+        lines.append("Eval vm_compute in (flat_map (fun su => map (fun sd => opamp (from_mps ZRing %s) su sd) %s) %s)." %
+                     (ch, "[" + "; ".join(_cl(c) for c in cf) + "]", "[" + "; ".join(_cl(c) for c in cf) + "]"))
+        m = r["max_entangled"]
+        ws = "[" + "; ".join("None" if k is None else "Some 1" for k in m["kinds"]) + "]"
+        cm = _cfgs(m["pdims"])
+        lines.append("Eval vm_compute in (flat_map (fun su => map (fun sd => opamp (max_entangled_gs ZRing %s) su sd) %s) %s)." %
+                     (ws, "[" + "; ".join(_cl(c) for c in cm) + "]", "[" + "; ".join(_cl(c) for c in cm) + "]"))
+        pu = r["purification"]
+        ks = "[" + "; ".join("(%d%%nat, of4 (R := ZRing) %s)" % (c["d"], _nest(c["t"])) for c in pu["kets"]) + "]"
+        os_ = "[" + "; ".join("(%d%%nat, of4 (R := ZRing) %s)" % (c["d"], _nest(c["t"])) for c in pu["ops"]) + "]"
+        nl = lambda xs: "[" + "; ".join("%d%%nat" % x for x in xs) + "]"
+        lines.append("Eval vm_compute in ([trOR %s %s %s %s])." % (os_, ks, nl(pu["pdims"]), nl(pu["qdims"])))
+    return "\n".join(lines) + "\n"
+
+
 def run(ctx):
     seed = ctx.rng.randrange(1 << 30)
     quick = ctx.tier == "quick"
@@ -154,7 +193,7 @@ def run(ctx):
             for i in range(2 if quick else 6):
                 jobs.append(("pc", dict(C9.pc_payload(seed + 13 * i, True, tabs, ti, taylor, 3 if quick else 6), script="c09_pc.py")))
     for i in range(2 if quick else 6):
-        jobs.append(("exact", {"script": "c10_exact.py", "seed": seed + 29 * i, "n": 4 if quick else 10}))
+        jobs.append(("exact", {"script": "c10_exact.py", "seed": seed + 29 * i, "n": 4 if quick else 10, "n_int": 2 if quick else 5}))
     nsh = 12
     for i in range(nsh):
         jobs.append(("oracle", {"script": "c10_oracle.py", "seed": seed, "shard": i, "nshards": nsh, "tier": ctx.tier, "budget_s": 75 if quick else 900}))
@@ -186,6 +225,35 @@ def run(ctx):
             key = {"evolve_exact bookkeeping": "evolve-exact-phase-bookkeeping", "ThermalProp exact": "thermalprop-exact-propagation"}.get(
                 b["what"], "oracle/" + b["what"].replace(" ", "-"))
             classes.setdefault(key, []).append(b)
+    ints = []
+    for rc, res, raw in by["exact"]:
+        if res is not None:
+            ints += res.get("ints", [])
+    n_int = n_int_ok = 0
+    if ints and ok_build:
+        rc, out = ctx.coq_eval("ints", ints_coq_text(ints))
+        zl = common.parse_Z_lists(out) if rc == 0 else []
+        if len(zl) != 3 * len(ints):
+            corr_bad.append({"what": "evaluation of from_mps / max_entangled_gs / Tr(O rho rho^+) in Coq failed", "out": out[-600:]})
+        else:
+            for k, r in enumerate(ints):
+                flat = lambda m: [int(x) for row in m for x in row]
+                checks = [("from_mps", zl[3 * k] == flat(r["from_mps"]["dense"])),
+                          ("max_entangled_gs", r["max_entangled"]["integer"] and r["max_entangled"]["normalised_is_const_times_unnormalised"]
+                           and zl[3 * k + 1] == flat(r["max_entangled"]["dense"])),
+                          ("purification_expectation", r["purification"]["ops_integer"] and len(zl[3 * k + 2]) == 1
+                           and float(zl[3 * k + 2][0]) == r["purification"]["value"])]
+                for name, okc in checks:
+                    n_int += 1
+                    ev += 1
+                    if okc:
+                        n_int_ok += 1
+                        nontriv += 1
+                    else:
+                        corr_bad.append({"what": "exact integer tie failed: " + name, "model_value": zl[3 * k + 2] if name.startswith("pur") else None,
+                                         "implementation": r["purification"]["value"] if name.startswith("pur") else None})
+            samples.append({"purification_expectation_integer": {"implementation": ints[0]["purification"]["value"], "coq_Tr_O_rho_rho": zl[2]}})
+        ctx.notes.append("purified-state ties on integer data (from_mps dense, max_entangled_gs dense, expectation = Tr(O rho rho^+)): %d, %d exact" % (n_int, n_int_ok))
     n_tie = n_tie_ok = 0
     if ties and ok_build:
         rc, out = ctx.coq_eval("exact", exact_coq_text(ties))
@@ -240,5 +308,5 @@ def run(ctx):
     return {"evaluations": ev, "distinct_nontrivial": nontriv,
             "rule": "imaginary P&C: a (model, state, scheme, dt) case counts once its dense result matched the Coq-exported polynomial in -tau H to 1e-10; exact_propagator: a propagator counts if bond dimensions, off-diagonals, the scaled site and the exponent of every configuration equal the model; oracle checks are counted in evaluations only",
             "samples": samples[:3], "exhaustive": False,
-            "input_distribution": {"imag_pc_cases": n_pc, "exact_propagator_ties": n_tie, "exact_propagator_ties_equal": n_tie_ok,
+            "input_distribution": {"imag_pc_cases": n_pc, "purified_integer_ties": n_int, "purified_integer_ties_exact": n_int_ok, "exact_propagator_ties": n_tie, "exact_propagator_ties_equal": n_tie_ok,
                                    "oracle_checks": n_or, "oracle_jobs_skipped": skipped, "violation_classes": {k: len(v) for k, v in classes.items()}}}
